@@ -126,8 +126,8 @@ PROPS = {
     "C21": dict(jobs=["reader-layout", "solver-andor"], level="model_checking",
                 rule="(solver-andor: every program of that slice which has a source text is written to a file, one clause per line: the loaded knowledge base must be the one parse_rule gives clause by clause) 8 programs of 1-3 rules (facts with spaces in atoms, float literals, infix = + - > >= <, lists, disjunction, short facts) x every layout with at most 2 (thorough 3) deviations from one-rule-per-line: line break / indented break / tab / blank line after any continuation character, two rules on one line, trailing # % // comments and comment lines outside brackets; TLC runs the Reader machine over each layout (ReaderCorrect) and the real loader must produce the knowledge base of parse_rule on each rule",
                 assumptions=["pieces (where a line may legally end) are written out per rule in MC_Reader.tla; the harness joins them with single spaces to obtain the canonical rule text"]),
-    "C22": dict(jobs=["session", "trace-solver", "interleave"], level="model_checking",
-                rule="(interleave: two queries built first, then every interleaving of their requests -- through next_solution and through solve() -- so that one query is asked, exhausted and re-asked between the requests of the other; each reply must be what that query observes alone) (trace-solver: the 250 / 5000 random programs are recorded one after the other in ONE process, each query built with make_query(); a run that Solver.tla rejects there but accepts when recorded alone in a fresh process depended on its history) all histories of 1-2 (thorough 3) episodes over 4-6 queries x 8-14 call lists (next_solution x4 incl. re-asks after exhaustion, solve x3, solve_all, mixes, and solve / solve_all calls during which the query timer fires before the 1st..5th count_rules()); every query is built with make_query + make_base_node only; TLC checks EachRunIsItsOwnSLD on Session.tla and the history is replayed with the virtual timer hook",
+    "C22": dict(jobs=["session", "trace-solver", "interleave", "timer"], level="model_checking",
+                rule="(timer: after each replayed timer schedule a query is built, 1.25 s pass with nothing started, and it must still find all its answers -- no timer of an earlier query may reach it) (interleave: two queries built first, then every interleaving of their requests -- through next_solution and through solve() -- so that one query is asked, exhausted and re-asked between the requests of the other; each reply must be what that query observes alone) (trace-solver: the 250 / 5000 random programs are recorded one after the other in ONE process, each query built with make_query(); a run that Solver.tla rejects there but accepts when recorded alone in a fresh process depended on its history) all histories of 1-2 (thorough 3) episodes over 4-6 queries x 8-14 call lists (next_solution x4 incl. re-asks after exhaustion, solve x3, solve_all, mixes, and solve / solve_all calls during which the query timer fires before the 1st..5th count_rules()); every query is built with make_query + make_base_node only; TLC checks EachRunIsItsOwnSLD on Session.tla and the history is replayed with the virtual timer hook",
                 assumptions=["a query is not resumed after a later query has been built", "calls made on a query after one of its own calls timed out are unconstrained",
                              "the timer's firing point is virtual (a hook in count_rules()); real-time firing is covered by the C23 timer slices"]),
     "C23": dict(jobs=["timer", "timer3", "session"], level="model_checking",
